@@ -43,7 +43,7 @@ CFG = {
     "components": [{"component": "gather", "session_start": "new", "trivial_regex": r"^(bad-op.*|r=err:.*)$",
                     "timeout_quick": 300, "timeout_thorough": 1500, "shrink_s": 40},
                    {"component": "activetcp", "timeout_quick": 120, "timeout_thorough": 300}],
-    "rule": "quick: all 16 network-type subsets x {no TCP mux, TCP mux} x 2 interface tables with double gather and restart; "
+    "rule": "component activetcp: a REAL agent on the loopback interface, remote passive TCP candidate added, every candidate-type subset x mDNS mode x network types x WithDisableActiveTCP (model IceModel.ActiveTcp, monitor IceSpec.C18Active: the active ICE-TCP host candidates respect the candidate types and the mDNS gather mode; found C18-G13); quick: all 16 network-type subsets x {no TCP mux, TCP mux} x 2 interface tables with double gather and restart; "
             "20 configurations covering every kind of local candidate x mDNS name on/off x a reply script; 39 lists of TURN URLs with / without username / password (every order) x 2 configurations x a reply script; continual gathering: 13 configurations x a script with an address appearing 1 ms before / at a tick, special-purpose, "
             "loopback, filtered and down-interface addresses, removal, interface down/up, Restart, Close; Restart / Close / refused "
             "gather while a re-gather pass is parked at the mux gate or waits for STUN / TURN (reply after the cancellation or never); "
